@@ -83,6 +83,8 @@ def check(ctx):
     from .C05 import check_tiles
     check_tiles(ctx, ('diff_exp.precompute_from_anndata',
                       'diff_exp.precompute_utils'), floor=1)
+    from .C05 import sweep_generic_rules
+    sweep_generic_rules(ctx, ('diff_exp.precompute',))
 
 
 # ----------------------------------------------------------------------
